@@ -111,7 +111,7 @@ func TestPropSCIONClient(t *testing.T) {
 		vt.Inconclusive(t, "cannot start SCION front: %v", frontErr)
 	}
 	lIA, rIA := addr.MustIAFrom(1, 0xff0000000110), addr.MustIAFrom(2, 0xff0000000220)
-	vt.Check(t, 100, 1000, func(t *rapid.T) {
+	vt.Check(t, 160, 1600, func(t *rapid.T) {
 		capt := &netlab.Capture{}
 		c := &client.SCIONClient{Log: capt.Logger(), InterleavedMode: rapid.IntRange(0, 3).Draw(t, "interleaved") > 0}
 		ps := wire.PathSpec{Kind: rapid.SampledFrom([]string{"scion", "scion", "empty"}).Draw(t, "pathkind"), SegLens: []int{2, 2}, ConsDir: []bool{true, false}, Seed: 77}
@@ -147,6 +147,11 @@ func TestPropSCIONClient(t *testing.T) {
 				if rapid.Bool().Draw(t, "scenario-shift") {
 					faults = []string{faults[1], faults[2], "none"}
 				}
+			}
+			// an interleaved request answered in basic mode (a conformant server may always do that): constructed, since
+			// it needs a client in interleaved mode, an earlier accepted exchange and the fault on the next one
+			if c.InterleavedMode && rapid.IntRange(0, 4).Draw(t, "basic-reply-scenario") == 0 {
+				faults = []string{"none", "force-basic", rapid.SampledFrom([]string{"none", "force-basic"}).Draw(t, "then")}
 			}
 			var plans []netlab.Plan
 			for _, fl := range faults {
